@@ -96,14 +96,14 @@ func (in *InExpr) Resolve(types []reflect.Type, isVariadic bool) error {
 
 // Eval InExpr 表达式执行
 func (in *InExpr) Eval(input []reflect.Value, isVariadic bool) (bool, error) {
-	if isVariadic {
-		// 可变参数需要展开参数数组
-		expandArgs := make([]reflect.Value, 0)
-		for _, v := range input {
-			rv := reflect.ValueOf(v.Interface())
-			for i := 0; i < rv.Len(); i++ {
-				expandArgs = append(expandArgs, rv.Index(i))
-			}
+	if isVariadic && len(input) > 0 {
+		// 可变参数需要展开参数数组: 只有最后一个参数是可变参数数组, 前面的固定参数原样保留
+		last := len(input) - 1
+		rv := reflect.ValueOf(input[last].Interface())
+		expandArgs := make([]reflect.Value, 0, len(input))
+		expandArgs = append(expandArgs, input[:last]...)
+		for i := 0; i < rv.Len(); i++ {
+			expandArgs = append(expandArgs, rv.Index(i))
 		}
 		input = expandArgs
 	}
